@@ -63,7 +63,10 @@ def portfolio(text, expect_sat=False):
 		('z3-5.1/ematching', lambda: run_z3(text, rlimit=RLIMIT // 4, wall=WALL // 2, extra=['smt.mbqi=false'])),
 		('z3-4.8.12', lambda: run_z3(text, rlimit=RLIMIT // 4, wall=WALL // 2, binary=Z3_OLD)),
 		('cvc5-1.0.3', lambda: run_cvc5(text, wall=WALL // 2)),
-		('z3-5.1/seed7', lambda: run_z3(text, rlimit=RLIMIT, wall=WALL, extra=['smt.random_seed=7', 'sat.random_seed=7'])),
+		('z3-5.1/seed7', lambda: run_z3(text, rlimit=RLIMIT // 4, wall=WALL, extra=['smt.random_seed=7', 'sat.random_seed=7'])),
+		('z3-5.1/seed3', lambda: run_z3(text, rlimit=RLIMIT // 4, wall=WALL, extra=['smt.random_seed=3', 'sat.random_seed=3'])),
+		('z3-5.1/seed11', lambda: run_z3(text, rlimit=RLIMIT // 4, wall=WALL, extra=['smt.random_seed=11', 'sat.random_seed=11'])),
+		('z3-5.1/full', lambda: run_z3(text, rlimit=RLIMIT, wall=WALL)),
 	]
 	last = 'unknown'
 	for name, f in attempts:
